@@ -67,3 +67,7 @@ TABLE["C10"] = dict(engine="simworld", technique="property-based testing: Hypoth
 TABLE["C13"] = dict(engine="simworld", technique="property-based testing: Hypothesis-generated listen/connect/write/close interleavings on both sides with declared expected-subprotocol sets, late and missing listeners, simultaneous closes and writes after close; subchannel lifecycle reference model checked after every step and at quiescence",
     text="Real dilated wormholes; expected_subprotocols is passed through w.dilate() so the wiring is on the path. The defect this found (the declared set was ignored) was repaired in repo commit 0b73d02 (fix:).",
     note=DIL_NOTE + " For IHalfCloseableProtocol applications read/writeConnectionLost are recorded and reported, not asserted.")
+
+TABLE["C11"] = dict(engine="simworld", technique="property-based testing: Hypothesis-generated schedules of mailbox control messages, candidate establishment and byte-wise handshake progress, selection turns, timers, dilate() timing and kills of selected and non-selected links; role/one-connection/confirmed-by-Leader invariants after every step + convergence oracle at quiescence",
+    text="Real Manager/Connector/L2 protocol pairs with 1-3 candidates per generation (listeners, relay), the link in use killed 0-4 times with either side noticing first, timers advanced by the tape; invariants are evaluated after every scheduler step and the two sides must end on the two ends of one link.",
+    note=DIL_NOTE)
